@@ -446,10 +446,25 @@ def inline_new_helpers(tree: ast.Module, ref_defs: set[str], ref_nested: dict[st
                 if len(h.returns) != 1 or h.returns[0] is not h.body[-1] or h.returns[0].value is None:
                     return None
             inplace = set()
-            if mode == "assign" and isinstance(st.targets[0], ast.Name) and isinstance(h.body[-1], ast.Return) and isinstance(h.body[-1].value, ast.Name):
-                x, rp = st.targets[0].id, h.body[-1].value.id
-                if rp == x and isinstance(binds.get(rp), ast.Name) and binds[rp].id == x:
-                    inplace.add(rp)
+            if mode == "assign" and isinstance(h.body[-1], ast.Return) and h.body[-1].value is not None:
+                tgt, ret = st.targets[0], h.body[-1].value
+                pairs = []
+                if isinstance(tgt, ast.Name) and isinstance(ret, ast.Name):
+                    pairs = [(tgt, ret)]
+                elif isinstance(tgt, (ast.Tuple, ast.List)) and isinstance(ret, (ast.Tuple, ast.List)) and len(tgt.elts) == len(ret.elts):
+                    pairs = [(a, b) for a, b in zip(tgt.elts, ret.elts) if isinstance(a, ast.Name) and isinstance(b, ast.Name)]
+                helper_locals = _stored(h.body) - set(h.params)
+                for a, b in pairs:
+                    if a.id != b.id:
+                        continue
+                    if b.id in h.params:
+                        # `x = h(.., x, ..)` with `return x`: the parameter is the caller's variable threaded through
+                        if isinstance(binds.get(b.id), ast.Name) and binds[b.id].id == a.id:
+                            inplace.add(b.id)
+                    elif b.id in helper_locals:
+                        # the helper's local that is returned into the caller's variable of the same name: the
+                        # caller's variable is (re)bound by the helper body itself
+                        inplace.add(b.id)
             prefix, body = _instantiate(h, binds, caller_names, st, hbody, frozenset(inplace))
             if body is None:
                 return None
